@@ -72,3 +72,9 @@ CLAIMED['C10'] = ('6/C10', 'Bounded-exhaustive symbolic schedule check on a real
                   'coroutine with 2/3 root updates likewise; final value = result of the latest assignment, no superseded result observed '
                   'after a newer one, a plain value cancels pending references.',
                   'symbolic execution (CrossHair+z3) over assignment kinds and completion orders with hand-resolved futures')
+CLAIMED['C11'] = ('6/C11', 'Bounded symbolic check against an independent MRO slot resolver: hierarchies A>B, A>M>B (M not declaring) and a diamond, '
+                  'each declaring level specifying a symbolic subset of the attributes with symbolic values, optional change of Parameter '
+                  'type (Number>Integer, Parameter(None)>Integer), creation by class statement or add_parameter; the merged Parameter is '
+                  'compared slot by slot (nearest holder, instantiate inherited, allow_None recomputed) and class creation must fail exactly '
+                  'when the merged non-None default violates the merged bounds/type (None re-checked only on type change).',
+                  'symbolic execution (CrossHair+z3) of the metaclass slot inheritance against an independent resolver')
